@@ -96,15 +96,26 @@ def build_api(patterns, file_level=()):
     """one API whose service sees a resource per pattern (message resources) + file-level ones"""
     f = apigen.File("acme/lib/v1/lib.proto", "acme.lib.v1")
     svc = f.service("Library")
-    for name, pat in patterns:
+    for k, (name, pat) in enumerate(patterns):
         m = f.msg(name)
         m.field("name", "string")
         m.resource(f"lib.example.com/{name}", pat)
+        if k % 4 == 3:
+            # visible ONLY through the response type of a long-running operation (no request refers to it, no method returns it)
+            rq = f.msg(f"Export{name}Request"); rq.field("parent", "string")
+            svc.method(f"Export{name}", rq, ".google.longrunning.Operation", lro=(f"acme.lib.v1.{name}", "google.protobuf.Empty"))
+            continue
         rq = f.msg(f"Get{name}Request")
         rq.field("name", "string", ref=f"lib.example.com/{name}")
         svc.method(f"Get{name}", rq, m)
-    for name, pat in file_level:
+    for k, (name, pat) in enumerate(file_level):
         f.resource_definition(f"other.example.com/{name}", pat)
+        if k % 2 == 1:
+            # referenced only from a field of an LRO response message
+            out = f.msg(f"Moved{name}"); out.field("target", "string", ref=f"other.example.com/{name}")
+            rq = f.msg(f"Move{name}Request"); rq.field("parent", "string")
+            svc.method(f"Move{name}", rq, ".google.longrunning.Operation", lro=(f"acme.lib.v1.Moved{name}", "google.protobuf.Empty"))
+            continue
         rq = f.msg(f"Ref{name}Request")
         rq.field("target", "string", ref=f"other.example.com/{name}")
         svc.method(f"Ref{name}", rq, ".google.protobuf.Empty")
